@@ -14,30 +14,30 @@ From Verif Require Import Base.Prelude Base.SchedS Model.C14 Proofs.C14 Model.C1
     reachable from the heads before the command still is, the heads are ancestors of the
     newest one (so loading needs no merge and yields [current]), and the operation the
     working copy records is bound and still reachable. *)
-Theorem C15_prefix_safe : forall g d l d' k,
-  wf_dag g -> Good g d -> accept g d l = Some d' ->
-  let dk := crash_state d l k in
+Theorem C15_prefix_safe : forall g chg d l d' k,
+  wf_dag g -> Good g d -> accept g chg d l = Some d' ->
+  let dk := crash_state chg d l k in
   loadable g dk
   /\ (forall x, Cov g (d_heads d) x -> Cov g (d_heads dk) x)
   /\ (forall h, In h (d_heads dk) -> anc g h (current dk))
   /\ In (d_checkout dk) (d_ops dk) /\ Cov g (d_heads dk) (d_checkout dk).
 Proof.
-  intros g d l d' k Hwf HG Hacc dk.
-  destruct (accept_prefix_Good g l d d' Hwf HG Hacc k) as [HG' Hcov].
+  intros g chg d l d' k Hwf HG Hacc dk.
+  destruct (accept_prefix_Good g chg l d d' Hwf HG Hacc k) as [HG' Hcov].
   split; [apply Good_loadable; exact HG'|]. split; [exact Hcov|].
-  destruct HG' as (_ & _ & _ & Hlin & Hco & Hcc). auto.
+  destruct HG' as (_ & _ & _ & Hlin & Hco & Hcc & _). auto.
 Qed.
 
 (** Before-or-after: the current operation after a crash is the head from before the command
     or an operation the command itself had already published (recorded by add_op_head in
     the applied prefix); commands that snapshot first publish two operations. *)
-Theorem C15_before_or_after : forall g d l d' k,
-  wf_dag g -> Good g d -> accept g d l = Some d' ->
-  let dk := crash_state d l k in
+Theorem C15_before_or_after : forall g chg d l d' k,
+  wf_dag g -> Good g d -> accept g chg d l = Some d' ->
+  let dk := crash_state chg d l k in
   In (current dk) (d_heads d) \/ In (EHeadAdd (current dk)) (firstn k l).
 Proof.
-  intros g d l d' k Hwf HG Hacc dk. apply heads_origin.
-  destruct (accept_prefix_Good g l d d' Hwf HG Hacc k) as [(Hne & _) _].
+  intros g chg d l d' k Hwf HG Hacc dk. apply (heads_origin chg).
+  destruct (accept_prefix_Good g chg l d d' Hwf HG Hacc k) as [(Hne & _) _].
   apply newest_in. exact Hne.
 Qed.
 
@@ -45,17 +45,40 @@ Qed.
     command or the one rename that binds it is in the applied prefix; together with the
     discipline ([EOp] needs its view bound first, [EHeadAdd] needs [EOp]) a reader never
     follows a head to a missing or half-written operation. *)
-Theorem C15_no_torn_object : forall l d k n,
-  In n (d_ops (crash_state d l k)) -> In n (d_ops d) \/ In (EOp n) (firstn k l).
+Theorem C15_no_torn_object : forall chg l d k n,
+  In n (d_ops (crash_state chg d l k)) -> In n (d_ops d) \/ In (EOp n) (firstn k l).
 Proof. exact ops_origin. Qed.
 
-(** Recovery: whatever prefix of the working-copy phase was applied, the operation recorded
-    in the working copy can still be loaded (previous theorem), and `workspace update-stale`
-    leaves a working copy in sync with the current operation without touching the repo. *)
-Theorem C15_wc_recoverable : forall d,
-  wc_synced (recover d) = true
-  /\ d_heads (recover d) = d_heads d /\ d_ops (recover d) = d_ops d.
-Proof. intros d. split; [apply recover_synced|split; reflexivity]. Qed.
+(** Working copy. finish() saves tree_state BEFORE it rebinds checkout (the discipline rejects
+    the other order). Hence after ANY prefix of an accepted command: either checkout still
+    names an operation other than the current one — the stale path: check_stale compares the
+    trees and `workspace update-stale` resynchronises — or tree_state already describes the
+    current operation's tree. A checkout that names the current operation over an older
+    tree_state (which check_stale would take for "fresh") never exists. *)
+Theorem C15_wc_recoverable : forall g chg d l d' k,
+  wf_dag g -> Good g d -> accept g chg d l = Some d' ->
+  let dk := crash_state chg d l k in
+  (d_checkout dk <> current dk \/ d_ts dk = current dk)
+  /\ wc_synced (recover dk) = true
+  /\ d_heads (recover dk) = d_heads dk /\ d_ops (recover dk) = d_ops dk.
+Proof.
+  intros g chg d l d' k Hwf HG Hacc dk.
+  destruct (accept_prefix_Good g chg l d d' Hwf HG Hacc k) as [(_ & _ & _ & _ & _ & _ & Hwc) _].
+  split; [exact Hwc|]. split; [apply recover_synced|split; reflexivity].
+Qed.
+
+(** The swapped order is not accepted: checkout cannot be rebound while tree_state still
+    describes another operation's tree, nor while working-copy files written since the last
+    tree_state save are unrecorded (concrete swapped traces: C15_nonvacuous). *)
+Theorem C15_checkout_needs_tree_state : forall g chg d r,
+  d_ts d <> newest (d_heads d) \/ d_wc_dirty d <> [] ->
+  accept g chg d (ECheckout :: r) = None.
+Proof.
+  intros g chg d r H. cbn [accept allowed].
+  destruct H as [H|H].
+  - apply Nat.eqb_neq in H. rewrite H. rewrite Bool.andb_false_r. reflexivity.
+  - destruct (d_wc_dirty d); [congruence|]. rewrite Bool.andb_false_r. reflexivity.
+Qed.
 
 (** The initial disk of a case satisfies the theorems' hypothesis when the checker's
     conditions hold (used with [loadableb] on the real observations). *)
@@ -66,20 +89,22 @@ Proof. exact loadableb_sound. Qed.
     effect sequence is accepted from the recorded initial state, every crash point of THAT
     run is safe in the sense of the theorems above. *)
 Theorem C15_case_safe : forall c d' k,
-  init_okb c = true -> accept (c_dag c) (disk_before c) (c_effects c) = Some d' ->
-  let dk := crash_state (disk_before c) (c_effects c) k in
+  init_okb c = true -> accept (c_dag c) (c_wc_changed c) (disk_before c) (c_effects c) = Some d' ->
+  let dk := crash_state (c_wc_changed c) (disk_before c) (c_effects c) k in
   loadable (c_dag c) dk
   /\ (forall x, anc (c_dag c) x (c_head_before c) -> Cov (c_dag c) (d_heads dk) x)
-  /\ (current dk = c_head_before c \/ In (EHeadAdd (current dk)) (firstn k (c_effects c))).
+  /\ (current dk = c_head_before c \/ In (EHeadAdd (current dk)) (firstn k (c_effects c)))
+  /\ (d_checkout dk <> current dk \/ d_ts dk = current dk).
 Proof.
   intros c d' k Hi Hacc dk.
   assert (Hwf : wf_dag (c_dag c)).
   { unfold init_okb in Hi. rewrite !Bool.andb_true_iff in Hi. apply wf_dagb_sound. tauto. }
   pose proof (disk_before_Good c Hi) as HG.
-  destruct (C15_prefix_safe _ _ _ _ k Hwf HG Hacc) as (H1 & H2 & _).
-  split; [exact H1|]. split.
+  destruct (C15_prefix_safe _ _ _ _ _ k Hwf HG Hacc) as (H1 & H2 & _).
+  split; [exact H1|]. split; [|split].
   - intros x Hx. apply H2. exists (c_head_before c). split; [left; reflexivity|exact Hx].
-  - destruct (C15_before_or_after _ _ _ _ k Hwf HG Hacc) as [[H|[]]|H]; [left; symmetry; exact H|right; exact H].
+  - destruct (C15_before_or_after _ _ _ _ _ k Hwf HG Hacc) as [[H|[]]|H]; [left; symmetry; exact H|right; exact H].
+  - apply (C15_wc_recoverable _ _ _ _ _ k Hwf HG Hacc).
 Qed.
 
 Check C15_prefix_safe.
@@ -89,14 +114,21 @@ Check C15_before_or_after.
     accepted; killing it between add_op_head and remove leaves two heads, current = new. *)
 Example C15_nonvacuous :
   let g := [[]; [0]; [1]; [2]] in
-  let d := mk_disk [0; 1; 2] [2] 2 [] 0 in
+  let d := mk_disk [0; 1; 2] [2] 2 [] 0 2 in
   let l := [ETreeState; EObj; ETabAdd; ETabRemove; EObj; EOp 3; EObj; ELink 3; EHeadAdd 3;
             EHeadRemove 2; ECheckout] in
-  (exists d', accept g d l = Some d')
-  /\ d_heads (crash_state d l 9) = [2; 3] /\ current (crash_state d l 9) = 3
-  /\ d_checkout (crash_state d l 10) = 2 /\ wc_synced (crash_state d l 11) = true
-  /\ accept g d [EObj; EHeadAdd 3] = None.
-Proof. cbv zeta. split; [eexists; vm_compute; reflexivity|repeat split; vm_compute; reflexivity]. Qed.
+  (exists d', accept g [] d l = Some d')
+  /\ d_heads (crash_state [] d l 9) = [2; 3] /\ current (crash_state [] d l 9) = 3
+  /\ d_checkout (crash_state [] d l 10) = 2 /\ wc_synced (crash_state [] d l 11) = true
+  /\ accept g [] d [EObj; EHeadAdd 3] = None
+  (* the working-copy tree changes at op 3: checkout may not be rebound before tree_state *)
+  /\ accept g [3] d [EObj; EOp 3; EHeadAdd 3; EHeadRemove 2; EWcWrite 0; ECheckout; ETreeState] = None
+  /\ accept g [3] d [EObj; EOp 3; EHeadAdd 3; EHeadRemove 2; ECheckout; ETreeState] = None
+  /\ (exists d', accept g [3] d [EObj; EOp 3; EHeadAdd 3; EHeadRemove 2; EWcWrite 0; ETreeState; ECheckout] = Some d').
+Proof.
+  cbv zeta. split; [eexists; vm_compute; reflexivity|].
+  repeat split; try (vm_compute; reflexivity). eexists; vm_compute; reflexivity.
+Qed.
 
 Print Assumptions C15_prefix_safe.
 Print Assumptions C15_before_or_after.
